@@ -11,6 +11,10 @@ RUNS = {'C07F': '4000', 'C07P': '300', 'C12': '20000', 'C02M': '12000', 'C03M': 
         'C17': '160', 'C11': '110', 'C06': '2000'}
 
 
+# the part that catches the change, where it differs from the part it was first run against
+CATCHING = {'C03-dedup-prefix-interactions': 'C03M'}
+
+
 def main():
     only = sys.argv[1:]
     out = {}
@@ -22,7 +26,7 @@ def main():
         if not os.path.isdir(d) or (only and not any(name.startswith(o) for o in only)):
             continue
         meta = json.load(open(os.path.join(d, 'meta.json')))
-        check = meta['check_run']['check']
+        check = CATCHING.get(name, meta['check_run']['check'])
         cmd = ['python3', os.path.join(HERE, 'tools', 'eval_seeded.py'), d, check]
         if RUNS.get(check):
             cmd.append(RUNS[check])
